@@ -198,25 +198,18 @@ impl MutableArchive {
 
     /// Read a file from the archive
     ///
-    /// This method checks the modified state first, then falls back to the original archive.
-    /// This ensures that renamed files can still be read correctly.
+    /// The file is looked up in the current state of the archive: files added, replaced
+    /// or renamed since the archive was opened are read under their current name, removed
+    /// files and old names are not found.
     pub fn read_file(&mut self, name: &str) -> Result<Vec<u8>> {
-        // Try to read using the current modified state first
-        match self.read_current_file(name) {
-            Ok(data) => Ok(data),
-            Err(Error::FileNotFound(_)) => {
-                // Fall back to original archive if file not found in modified state
-                self.archive.read_file(name)
-            }
-            Err(e) => Err(e),
-        }
+        self.archive.read_file(name)
     }
 
     /// List files in the archive
     ///
-    /// This is a convenience method that delegates to the underlying Archive.
-    /// It allows listing files from a MutableArchive without having to call
-    /// archive_mut() explicitly.
+    /// This is a convenience method that delegates to the underlying Archive, which
+    /// reflects all changes made so far. It allows listing files from a MutableArchive
+    /// without having to call archive_mut() explicitly.
     pub fn list(&mut self) -> Result<Vec<crate::FileEntry>> {
         self.archive.list()
     }
@@ -436,6 +429,7 @@ impl MutableArchive {
 
         // Add to hash table
         self.add_to_hash_table(&archive_name, block_index, options.locale)?;
+        self.publish_tables();
 
         // Track this block as modified (for attributes CRC calculation)
         if archive_name != "(attributes)" {
@@ -455,38 +449,6 @@ impl MutableArchive {
 
         self.dirty = true;
         Ok(())
-    }
-
-    /// Read the current state of a file (considering modifications)
-    fn read_current_file(&mut self, filename: &str) -> Result<Vec<u8>> {
-        // First check if we have a modified version
-        if let Some((_, entry)) = self.find_file_entry(filename)? {
-            let block_idx = entry.block_index as usize;
-            if let Some(block_table) = &self.block_table
-                && let Some(block) = block_table.entries().get(block_idx)
-            {
-                // Read from our file handle
-                let file_pos = self.archive.archive_offset() + block.file_pos as u64;
-                self.file.seek(SeekFrom::Start(file_pos))?;
-
-                let mut data = vec![0u8; block.compressed_size as usize];
-                self.file.read_exact(&mut data)?;
-
-                // Handle decompression/decryption if needed
-                // For now, assume (listfile) is uncompressed/unencrypted
-                if block.is_compressed() || block.is_encrypted() {
-                    // This would need proper decompression/decryption
-                    return self.archive.read_file(filename);
-                }
-
-                // Truncate to actual file size
-                data.truncate(block.file_size as usize);
-                return Ok(data);
-            }
-        }
-
-        // Fall back to original archive
-        self.archive.read_file(filename)
     }
 
     /// Remove a file from the archive
@@ -512,6 +474,7 @@ impl MutableArchive {
         if let Some(hash_table) = &mut self.hash_table {
             hash_table.get_mut(hash_index).unwrap().block_index = HashEntry::EMPTY_DELETED;
         }
+        self.publish_tables();
 
         // Update (listfile) to remove the filename
         self.remove_from_listfile(&archive_name)?;
@@ -577,6 +540,7 @@ impl MutableArchive {
 
         // Add new hash entry
         self.add_to_hash_table(&new_name, block_index, locale)?;
+        self.publish_tables();
 
         // Update (listfile)
         self.remove_from_listfile(&old_name)?;
@@ -772,7 +736,7 @@ impl MutableArchive {
         }
 
         // Read existing attributes
-        let attrs_data = self.read_current_file("(attributes)")?;
+        let attrs_data = self.archive.read_file("(attributes)")?;
         let block_count = self
             .block_table
             .as_ref()
@@ -839,7 +803,7 @@ impl MutableArchive {
             // Calculate CRC32 if enabled
             if attrs.flags.has_crc32() && filename != "(listfile)" {
                 // Read the uncompressed file data to calculate CRC
-                match self.read_current_file(&filename) {
+                match self.archive.read_file(&filename) {
                     Ok(data) => {
                         // Calculate CRC32 using standard algorithm
                         let crc = crc32fast::hash(&data);
@@ -939,6 +903,18 @@ impl MutableArchive {
         // TODO: Handle hi-block table for large archives
 
         Ok(())
+    }
+
+    /// Make the underlying archive look files up in the current tables
+    ///
+    /// Everything that is read through the underlying archive (file contents, the
+    /// listing, the special files) then reflects the changes made so far instead of
+    /// the state the archive was opened in.
+    fn publish_tables(&mut self) {
+        if let (Some(hash_table), Some(block_table)) = (&self.hash_table, &self.block_table) {
+            self.archive
+                .set_tables(hash_table.clone(), block_table.clone());
+        }
     }
 
     /// Find a file entry in the hash table
@@ -1169,7 +1145,7 @@ impl MutableArchive {
         }
 
         // Read existing listfile content (from current state, not original)
-        let mut current_content = match self.read_current_file("(listfile)") {
+        let mut current_content = match self.archive.read_file("(listfile)") {
             Ok(data) => String::from_utf8_lossy(&data).to_string(),
             Err(_) => String::new(), // If can't read, start fresh
         };
@@ -1206,7 +1182,7 @@ impl MutableArchive {
         }
 
         // Read existing listfile content (from current state, not original)
-        let current_content = match self.read_current_file("(listfile)") {
+        let current_content = match self.archive.read_file("(listfile)") {
             Ok(data) => String::from_utf8_lossy(&data).to_string(),
             Err(_) => return Ok(()), // If can't read, nothing to remove
         };
